@@ -145,9 +145,10 @@ fn validate_const_enum_data(
 
     let selector: usize =
         selector.try_into().map_err(|_| SpecializationError::UnsupportedGenericArg)?;
-    // Extract the variant data type according to the selector.
+    // Extract the variant data type according to the selector (an untrusted selector of
+    // `usize::MAX` must not overflow the index computation).
     let Some(GenericArg::Type(variant_data_ty)) =
-        inner_type_info.long_id.generic_args.get(1 + selector)
+        selector.checked_add(1).and_then(|idx| inner_type_info.long_id.generic_args.get(idx))
     else {
         return Err(SpecializationError::UnsupportedGenericArg);
     };
